@@ -861,6 +861,7 @@ func main() {
 	setLag(&o, f)
 	registry(&o, f)
 	skeletons(&o, f)
+	distinctFacts(&o, f)
 	o.WriteString("end Csvq.Gen.An\n")
 	fmt.Print(o.String())
 }
@@ -1563,6 +1564,122 @@ func skeletons(o *strings.Builder, f *ast.File) {
 		die("SortValues.Serialize: the switch over val.Type was not found")
 	}
 	fmt.Fprintf(o, "/-- SortValues.Serialize (the partition key): what is written before the typed part … -/\ndef serializePrologue : List String :=\n  %s\n\n/-- … and the serialiser of every sort value type -/\ndef serializeCases : List (String × String) :=\n  [%s]\n\n", strList(pre), strings.Join(cases, ", "))
+}
+
+// ---------- DISTINCT inside the analytic path: the gates, Distinguish, the mode dispatch of the comparison key ----------
+
+// callFacts: every call in `n` whose function name matches `re`, as (name, [argument texts]) in source order
+func callFacts(n ast.Node, re *regexp.Regexp) []string {
+	var out []string
+	ast.Inspect(n, func(x ast.Node) bool {
+		if c, ok := x.(*ast.CallExpr); ok && re.MatchString(src(c.Fun)) {
+			var args []string
+			for _, a := range c.Args {
+				args = append(args, src(a))
+			}
+			out = append(out, "("+q(src(c.Fun))+", "+strList(args)+")")
+		}
+		return true
+	})
+	return out
+}
+
+func blockTexts(b *ast.BlockStmt) []string {
+	var out []string
+	if b == nil {
+		return out
+	}
+	for _, s := range b.List {
+		out = append(out, src(s))
+	}
+	return out
+}
+
+func distinctFacts(o *strings.Builder, f *ast.File) {
+	uf, err := parser.ParseFile(fset, filepath.Join(repo(), "lib", "query", "utils.go"), nil, 0)
+	if err != nil {
+		die("%v", err)
+	}
+	serRe := regexp.MustCompile(`^(Serialize\w*|serialize\w*)$`)
+	// --- Distinguish: its statements, and the key writer called for every value of the list
+	dg := findFunc(uf, "", "Distinguish")
+	var first *ast.RangeStmt
+	for _, s := range dg.Body.List {
+		if rs, ok := s.(*ast.RangeStmt); ok && src(rs.X) == "list" {
+			if first != nil {
+				die("Distinguish: more than one loop over `list`")
+			}
+			first = rs
+		}
+	}
+	if first == nil {
+		die("Distinguish: the loop over `list` was not found")
+	}
+	fmt.Fprintf(o, "/-- utils.go Distinguish, statement by statement (a map key → index of the first value with that key, the keys in\n    order of first appearance; the result: the value at the recorded index of every key, in that order) -/\ndef distinguishStatements : List String :=\n  %s\n\n", strList(stmtTexts(dg)))
+	fmt.Fprintf(o, "/-- Distinguish: the key-serialising calls made for every value `v` of the list (function, arguments) -/\ndef distinguishKeyCalls : List (String × List String) :=\n  [%s]\n\n", strings.Join(callFacts(first.Body, serRe), ", "))
+	// --- SerializeComparisonKeys: the loop body and the dispatch on the session flag
+	sk := findFunc(uf, "", "SerializeComparisonKeys")
+	if len(sk.Body.List) != 1 {
+		die("SerializeComparisonKeys: body is no longer a single loop")
+	}
+	rs, ok := sk.Body.List[0].(*ast.RangeStmt)
+	if !ok {
+		die("SerializeComparisonKeys: body is no longer a single loop")
+	}
+	var disp []string
+	for _, st := range rs.Body.List {
+		if is, ok := st.(*ast.IfStmt); ok && is.Else != nil {
+			eb, ok := is.Else.(*ast.BlockStmt)
+			if !ok {
+				die("SerializeComparisonKeys: else-if chain")
+			}
+			disp = append(disp, "("+q(src(is.Cond))+", "+strList(blockTexts(is.Body))+", "+strList(blockTexts(eb))+")")
+		}
+	}
+	fmt.Fprintf(o, "/-- SerializeComparisonKeys: the loop header and the statements of one round -/\ndef comparisonKeysLoop : String × List String :=\n  (%s, %s)\n\n", q(rangeHeader(rs)), strList(blockTexts(rs.Body)))
+	fmt.Fprintf(o, "/-- SerializeComparisonKeys: the two-way decisions of one round (condition, statements if it holds, statements otherwise) -/\ndef comparisonKeysDispatch : List (String × List String × List String) :=\n  [%s]\n\n", strings.Join(disp, ", "))
+	fmt.Fprintf(o, "/-- … and the key writers each of the two functions behind the dispatch is declared with (name, parameters) -/\ndef comparisonKeyWriters : List (String × List String) :=\n  [%s]\n\n", strings.Join([]string{sigOf(findFunc(uf, "", "SerializeKey")), sigOf(findFunc(uf, "", "SerializeIdenticalKey"))}, ", "))
+	// --- the DISTINCT gates of the analytic path: (function, statements after its loop over the frame / partition)
+	var gates []string
+	for _, g := range [][2]string{{"", "windowValues"}, {"AnalyticListAgg", "Execute"}, {"AnalyticJsonAgg", "Execute"}} {
+		fd := findFunc(f, g[0], g[1])
+		last := -1
+		for i, s := range fd.Body.List {
+			switch s.(type) {
+			case *ast.RangeStmt, *ast.ForStmt:
+				if last < 0 || g[1] == "windowValues" {
+					last = i
+				}
+			}
+		}
+		// the loop that collects the values is the first one (Execute has a second loop that stores the result)
+		if last < 0 {
+			die("%s.%s: loop not found", g[0], g[1])
+		}
+		var after []string
+		for _, s := range fd.Body.List[last+1:] {
+			after = append(after, src(s))
+		}
+		name := g[1]
+		if g[0] != "" {
+			name = g[0] + "." + g[1]
+		}
+		gates = append(gates, "("+q(name)+", "+strList(after)+")")
+	}
+	fmt.Fprintf(o, "/-- the statements that follow the loop collecting the values (windowValues: the frame's cells; AnalyticListAgg /\n    AnalyticJsonAgg: the partition's cells): the DISTINCT gate, then what is done with the values -/\ndef distinctGates : List (String × List String) :=\n  [%s]\n\n", strings.Join(gates, ",\n   "))
+	// --- Analyze: what receives the values of windowValues (built-in aggregate with the session flags; user aggregate)
+	an := findFunc(f, "", "Analyze")
+	fmt.Fprintf(o, "/-- Analyze: the calls that produce and consume the values of a frame (function, arguments) -/\ndef frameValueCalls : List (String × List String) :=\n  [%s]\n\n", strings.Join(callFacts(an, regexp.MustCompile(`^(windowValues|aggfn|udfn\.ExecuteAggregate|WindowFrameSet)$`)), ", "))
+}
+
+func sigOf(fd *ast.FuncDecl) string {
+	var ps []string
+	for _, p := range fd.Type.Params.List {
+		for _, n := range p.Names {
+			ps = append(ps, n.Name+" "+src(p.Type))
+		}
+	}
+	return "(" + q(fd.Name.Name) + ", " + strList(ps) + ")"
 }
 
 func keywordClasses(o *strings.Builder) {
